@@ -109,7 +109,12 @@ def _display_unrollable(st):
     if not (isinstance(it, (ast.Tuple, ast.List)) and 2 <= len(it.elts) <= 6 and all(_pure_operand(e) for e in it.elts)):
         return False
     if all(isinstance(e, ast.Constant) for e in it.elts):
-        return False          # literal string tables are handled by _loop_unrollable (reflective loops) or left alone
+        # literal string tables: reflective loops are handled by _loop_unrollable; a loop that uses its variable as the key of a table look-up
+        # (`for fmt in ("XML", "JSON"): convert(found[fmt], fmt)`) is a dispatch over the rows and is unrolled as well; others are left alone
+        keyed = any(isinstance(y, ast.Subscript) and isinstance(y.slice, ast.Name) and y.slice.id == st.target.id
+                    for b in st.body for y in ast.walk(b))
+        if not keyed or len(it.elts) > 4:
+            return False
     used = set(y.id for e in it.elts for y in ast.walk(e) if isinstance(y, ast.Name))
     for n in ast.walk(ast.Module(body=st.body, type_ignores=[])):
         if isinstance(n, (ast.Break, ast.Continue, ast.FunctionDef, ast.Lambda, ast.ClassDef)):
@@ -911,6 +916,20 @@ def _yield_sites(fn):
     return sites
 
 
+def _early_return_as_else(stmts):
+    """`if c: A; return` followed by B is `if c: A else: B` (a bare return at the end of a branch at the top level of a generator)"""
+    out = []
+    for i, st in enumerate(stmts):
+        if isinstance(st, ast.If) and not st.orelse and st.body and isinstance(st.body[-1], ast.Return) and st.body[-1].value is None \
+                and not any(isinstance(y, ast.Return) for b in st.body[:-1] for y in ast.walk(b)):
+            rest = _early_return_as_else(stmts[i + 1:])
+            new = ast.copy_location(ast.If(test=st.test, body=st.body[:-1] or [ast.copy_location(ast.Pass(), st)], orelse=rest), st)
+            out.append(new)
+            return out
+        out.append(st)
+    return out
+
+
 class _InlinePrivateGenerators(ast.NodeTransformer):
     """`for T in self._gen(a, b): BODY` over a small private generator of the same class / module is the body of the generator with every
     `yield E` replaced by `T = E; BODY` (parameters bound first, the generator's locals renamed).  Done only where that is the same
@@ -958,6 +977,8 @@ class _InlinePrivateGenerators(ast.NodeTransformer):
             caller_self = self.fn.args.args[0].arg if self.fn is not None and self.fn.args.args else None
             if f.value.id == self.cls and static:
                 return g, None, False
+            if static and caller_self is not None and f.value.id == caller_self:
+                return g, None, False          # a static helper reached through cls / self
             if caller_self is not None and f.value.id == caller_self and not any(isinstance(d, ast.Name) and d.id in ("staticmethod", "classmethod")
                                                                                   for d in self.fn.decorator_list):
                 return g, (None if static else f.value), not static
@@ -978,6 +999,11 @@ class _InlinePrivateGenerators(ast.NodeTransformer):
             return st
         if g.args.vararg or g.args.kwarg or g.args.kwonlyargs or g.args.posonlyargs:
             return st
+        if any(isinstance(y, ast.Return) for y in ast.walk(g)):
+            g2 = copy.deepcopy(g)
+            g2.body = _early_return_as_else([b for b in g2.body if not (isinstance(b, ast.Expr) and isinstance(b.value, ast.Constant))])
+            ast.fix_missing_locations(g2)
+            g = g2
         sites = _yield_sites(g)
         if sites is None:
             return st
